@@ -129,6 +129,46 @@ Theorem C18_h_leaf_order : forall st inter t,
 Proof. exact hyield_leaf_order. Qed.
 Print Assumptions C18_h_leaf_order.
 
+(* column bands.  `hends` lists, per row, the leaf cell the row ends in and the depth of that leaf
+   (relative to the root; a separating row ends right after its parent's band).  Every row is a
+   prefix followed by that cell, and the prefix of a row whose leaf has depth 1+n is exactly
+   colw 1 n = cellw 1 + ... + cellw n columns wide, where cellw d = (longest name of depth d) + 5
+   with intermediate names (the name itself starts 2 columns into its band: c_1 = 2,
+   c_(d+1) = c_d + w_d + 5) and 4 without.  Hence every cell of depth d — leaf, inner node text or
+   blank — starts in the same column, for every tree, style and option. *)
+Theorem C18_h_column_bands : forall st inter t,
+  exists rows P, hyield_rows st inter t = Ret rows
+    /\ rows = zip_with (@app N) P (map fst (hends st (padding_depths inter t) 1 t))
+    /\ Forall2 (fun (p : str) e => length p = colw inter (padding_depths inter t) 1 (snd e))
+               P (hends st (padding_depths inter t) 1 t).
+Proof. exact hyield_bands. Qed.
+Print Assumptions C18_h_column_bands.
+
+(* the same for the block of any subtree at any depth, given that the names fit their bands
+   (`fits`, which holds for the widths hyield_tree computes: padding_depths_fits) *)
+Theorem C18_h_block_bands : forall st inter ws t d,
+  (inter = true -> fits ws d t) -> exists P, band_ok st inter ws d t P.
+Proof. exact hbranch_bands. Qed.
+Print Assumptions C18_h_block_bands.
+
+(* each parent is joined to exactly its children.  For the block of a node with children: in front
+   of the children's rows stands exactly the column `hprefix_spec`: the node's text on its own
+   row (`blk_mid`), blanks of the same width on every other row, then the connector icon `conn`:
+   a child icon (first / subsequent / last, or middle when the child shares the parent's row, or
+   the plain branch for an only child) on exactly the children's branch rows (`child_rows`: branch
+   row of child j + rows of the children before it), a stem (or the split icon on the parent's
+   row) on the other rows between the first and the last child, a blank outside.  Every style. *)
+Theorem C18_h_connectors : forall st inter ws g n a ks d,
+  is_hole (T g n a ks) = false -> existsb real ks = true ->
+  let sub := map (hbranch st inter ws (S d)) ks in
+  let b := hbranch st inter ws d (T g n a ks) in
+  fst (fst b)
+  = zip_with (@app N)
+      (hprefix_spec st inter (center n (pad_at ws d)) (child_rows sub) (blk_mid b) (length (block_result sub)))
+      (block_result sub).
+Proof. exact hbranch_connectors. Qed.
+Print Assumptions C18_h_connectors.
+
 (* the whole horizontal clause (bands, icons, connectors, decoding) on concrete inputs: a tree with
    fan-out 4, names of different lengths, a binary node with an empty slot, two single-row children *)
 Example C18_h_witness :
